@@ -19,7 +19,7 @@ DEFAULT = dict(
     strings=1.0, lists=0.0, random=0.0, shuffles=0.0, externals=0.0, faults=0.0, flows=0,
     fallback=0.6, labels=0.6, readcounts=1.0, stitches=0.5, impure_functions=0.3,
     assign_after_newline=1.0, unicode=0.0, floats=0.0, hostvar=0, turns=1.0, msgs=0.0, ext_in_strings=0.0,
-    ext_counters=0, retype=0.4, ext_markers=0,
+    ext_counters=0, retype=0.4, ext_markers=0, temps=1.0, seq_inline=0,
 )
 
 
@@ -196,9 +196,14 @@ class Gen:
             return "{%s(%s)}" % (e["name"], ", ".join(self.int_expr(0, temps) for _ in range(e["arity"])))
         return self.words(1)
 
-    def text_line(self, temps=(), allow_glue=True):
+    def text_line(self, temps=(), allow_glue=True, simple=False):
         r = self.r
-        parts = [self.word()] + [self.inline(temps) for _ in range(r.randint(0, 2))]
+        if simple:
+            # inside a multi-line sequence branch: no inline conditional or alternative (this compiler
+            # mis-translates `{c: a | b}` there into code that underflows the evaluation stack or loops)
+            parts = [self.word()] + [r.choice([self.words(), "{%s}" % self.int_expr(1, temps)]) for _ in range(r.randint(0, 2))]
+        else:
+            parts = [self.word()] + [self.inline(temps) for _ in range(r.randint(0, 2))]
         s = " ".join(parts)
         if allow_glue and self.p("glue") and r.random() < 0.4:
             s = s + " <>" if r.random() < 0.6 else "<> " + s
@@ -232,10 +237,13 @@ class Gen:
                     out.append(pad + self.text_line(temps))
                 if self.w["assign_after_newline"] and r.random() < 0.5:
                     out.append(pad + self.text_line(temps))
-            elif c < 0.54 and not in_function and ind == 0:
+            elif c < 0.54 and not in_function and ind == 0 and r.random() < self.w["temps"]:
                 t = "t%d" % (len(temps) + 1)
                 out.append(pad + "~ temp %s = %s" % (t, self.int_expr(1, temps)))
                 temps = tuple(temps) + (t,)
+                if self.w["temps"] > 1:
+                    out.append(pad + "%s {%s}" % (self.word(), t))
+                    out.append(pad + "%s {%s + 1}" % (self.word(), t))
             elif c < 0.64 and self.p("conds") and depth > 0:
                 out.append(pad + "{ %s:" % self.bool_expr(2, temps))
                 out += self.stmts(ind + 1, depth - 1, temps, r.randint(1, 2), in_choice, in_function, knot_index)[0]
@@ -267,10 +275,10 @@ class Gen:
             elif c < 0.82 and self.p("seqs") and depth > 0 and not in_function:
                 kind = r.choice(["stopping", "cycle", "once"])
                 if self.w["shuffles"] and r.random() < 0.6 * self.w["shuffles"]:
-                    kind = r.choice(["shuffle", "shuffle once", "shuffle stopping"])
+                    kind = r.choice(["shuffle", "shuffle once", "stopping shuffle"])
                 out.append(pad + "{ %s:" % kind)
                 for _ in range(r.randint(2, 3)):
-                    out.append(pad + "  - " + self.text_line(temps, allow_glue=False))
+                    out.append(pad + "  - " + self.text_line(temps, allow_glue=False, simple=not self.w.get("seq_inline", 0)))
                 out.append(pad + "}")
             elif c < 0.9 and self.w["msgs"] and ind == 0 and not in_function and r.random() < 0.5 * self.w["msgs"]:
                 # a warning: a temporary read although its declaration was never executed
@@ -375,7 +383,7 @@ class Gen:
             for i in range(nl):
                 name = "L%d" % i
                 items = []
-                val = r.randint(1, 3)
+                val = r.randint(1, 2)
                 for j in range(r.randint(2, 4)):
                     items.append(("%s%s" % ("abc"[i], "pqrs"[j]), val))
                     val += r.randint(1, 2)
@@ -393,6 +401,7 @@ class Gen:
             L.append("VAR %s = %s" % (v, r.choice(["true", "false"])))
         for v in self.strs:
             L.append('VAR %s = "%s"' % (v, r.choice(["a", "b", "ab", ""])))
+        self.list_inits = []
         for i, (name, items) in enumerate(self.listdefs):
             v = "lv%d" % i
             self.lists.append((v, name))
@@ -400,14 +409,18 @@ class Gen:
             if c < 0.3:
                 L.append("VAR %s = ()" % v)
             elif c < 0.7:
-                L.append("VAR %s = (%s)" % (v, ", ".join(it for it, _ in items if r.random() < 0.5) or items[0][0]))
+                # (this compiler mis-translates a multi-item list literal in a VAR initialiser, so the
+                # relational checks initialise such variables by assignment at the top of the first knot)
+                L.append("VAR %s = ()" % v)
+                self.list_inits.append("~ %s = (%s)" % (v, ", ".join(it for it, _ in items if r.random() < 0.5) or items[0][0]))
             else:
                 L.append("VAR %s = %s" % (v, items[0][0]))
         if w["lists"] and len(self.listdefs) >= 2:
-            # a multi-origin list variable
+            # a multi-origin list variable whose items have equal values
             a = self.listdefs[0][1][0][0]
             b = self.listdefs[1][1][0][0]
-            L.append("VAR lmix = (%s, %s)" % (a, b))
+            L.append("VAR lmix = ()")
+            self.list_inits.append("~ lmix = (%s, %s)" % (a, b))
             self.lists.append(("lmix", self.listdefs[0][0]))
         # externals
         if w["externals"]:
@@ -450,6 +463,8 @@ class Gen:
         self._pending_labels = []
         for ki, k in enumerate(names):
             L.append("== %s ==" % k)
+            if ki == 0:
+                L += getattr(self, "list_inits", [])
             temps = ()
             targets = names[ki + 1:] or []
             back = names[: ki + 1]
@@ -524,6 +539,8 @@ class Gen:
             fk = "flow%d" % fi
             self.flow_knots.append(dict(knot=fk, var=fv))
             L.append("== %s ==" % fk)
+            L.append("~ temp t1 = %d" % (7 + fi))
+            L.append("%s {t1}" % self.word())
             for j in range(r.randint(2, 3)):
                 L.append("%s {%s}" % (self.word(), fv))
                 if r.random() < 0.6:
